@@ -6,10 +6,12 @@ import facts
 import witness
 from facts import AnalysisError
 
-QUICK = ["H0", "H1", "H6", "N0"]
-ALL = ["H0", "H1", "H2", "H3", "H4", "H5", "H6", "H7", "T0", "T1", "N0"]
-NOSTD = {"H0", "H1", "H3", "H4", "H5", "H7", "T0", "T1", "N0"}       # configurations without the `std` feature
-NOALLOC_SYSROOT = {"T0", "N0"}                                     # sysroot built with core only
+QUICK = ["H0", "H1", "H6", "N0", "N5", "N7"]
+ALL = ["H0", "H1", "H2", "H3", "H4", "H5", "H6", "H7", "T0", "T1", "N0", "N5", "N7"]
+NOSTD = {"H0", "H1", "H3", "H4", "H5", "H7", "T0", "T1", "N0", "N5", "N7"}       # configurations without the `std` feature
+NOALLOC_SYSROOT = {"T0", "N0", "N5"}                               # sysroot built with core only
+NOSTD_SYSROOT = {"T1", "N7"}                                       # sysroot built with core + alloc only
+
 FORBIDDEN_ATTRS = {"no_mangle", "export_name", "link_section", "naked", "link", "link_name", "used", "path", "global_allocator",
                    "start", "panic_handler", "ffi_const", "ffi_pure", "unsafe"}
 FORBIDDEN_MACROS = {"include", "include_str", "include_bytes", "asm", "global_asm", "naked_asm"}
@@ -65,6 +67,12 @@ def run(ctx):
                 r3.fail("<crate>", "sysroot-" + cfg, "alloc/std in the dependency closure of a core-only build: %s" % sorted(deps))
             else:
                 r3.ok("<crate>", "sysroot-" + cfg, "built against a sysroot containing only core: deps %s" % sorted(deps))
+        if cfg in NOSTD_SYSROOT:
+            deps = set(k["deps"])
+            if "std" in deps:
+                r3.fail("<crate>", "sysroot-" + cfg, "std in the dependency closure of a core+alloc build: %s" % sorted(deps))
+            else:
+                r3.ok("<crate>", "sysroot-" + cfg, "built, with all optional dependencies, against a sysroot without std: deps %s" % sorted(deps))
         if cfg == "H0":
             deps = set(k["deps"])
             extra = deps - H0_DEPS_ALLOWED
